@@ -48,6 +48,22 @@ def run(ck, P):
     for b in [b for f in P.funcs for b in f.blocks.values() if b.term and b.term.get("cond") is not None]:
         pass
     must_see = {("m_mod_become", "m_stack_push"), ("m_mod_unbecome", "m_stack_pop"), ("call_pubsub_cb", "m_stack_peek")}
+    if ("call_pubsub_cb", "m_stack_peek") not in seen:
+        # the dispatcher no longer looks at the handler stack: whatever else it consults (a cached "current handler" field) has to be kept
+        # in step by every operation that changes the stack — stop's reset among them
+        cbf_ = P.fn("call_pubsub_cb", required=False)
+        if cbf_ is not None:
+            ucs_ = rules.indirect_calls(P, cbf_, "USERCB")
+            srcs_ = set()
+            for uc_ in ucs_:
+                h_ = strip(uc_.e["fn"])
+                srcs_ |= rules.value_sources(cbf_, h_["name"]) if h_["k"] == "var" else {S(h_)}
+            ck.rule("C17.2-SELECTION", "dataflow in call_pubsub_cb: the handler invoked is the top of mod->recvs read at dispatch, or hook.on_evt when the "
+                    "stack is empty", floor=1)
+            ck.ob("C17.2-SELECTION", cbf_.site("handler read from the stack at dispatch"), False,
+                  "call_pubsub_cb picks its handler from %s without consulting mod->recvs: the stack (pushed by become, popped by unbecome, emptied when "
+                  "the module stops) and the handler actually invoked can disagree — after become; stop; start the old handler still receives every "
+                  "event" % sorted(srcs_))
     ck.need(must_see <= seen, "handler-stack anchor vanished: %s" % sorted(must_see - seen))
 
     # ------------------------------------------------------------------ 2. selection at delivery time
@@ -71,17 +87,24 @@ def run(ck, P):
             for d in cb.events():
                 if d.kind in ("decl", "assign") and d.lhs is not None and S(d.lhs) == nm_ and d.rhs is not None:
                     r_ = strip(d.rhs)
-                    if r_["k"] == "var" and r_.get("vk") in ("local", "param"):
-                        todo.append(r_["name"])
-                    else:
-                        srcs.append((nm_, d))
-        peek = [(n_, d) for (n_, d) in srcs if strip(d.rhs).get("callee") == "m_stack_peek" and S(strip(d.rhs)["args"][0]) == "mod->recvs"]
-        fall = [(n_, d) for (n_, d) in srcs if S(d.rhs) == "mod->hook.on_evt"]
-        ok = len(srcs) == 2 and len(peek) == 1 and len(fall) == 1 and cb.ev_dominates(peek[0][1], uc) \
-            and any(has(X.facts(cb, fall[0][1]), nm__, False) for nm__ in sorted(seen_names) + [S(peek[0][1].rhs)]) and S(uc.args[0]) == "mod"
+                    # `cb = peeked ? peeked : mod->hook.on_evt`: each arm is a source of its own, under the condition's outcome
+                    arms_ = [(r_, None)] if r_["k"] != "cond" else [(strip(r_["a"]), (S(r_["c"]), True)), (strip(r_["b"]), (S(r_["c"]), False))]
+                    for (x_, g_) in arms_:
+                        if x_["k"] == "var" and x_.get("vk") in ("local", "param"):
+                            todo.append(x_["name"])
+                        else:
+                            srcs.append((nm_, d, x_, g_))
+        peek = [(n_, d) for (n_, d, x_, g_) in srcs if x_.get("callee") == "m_stack_peek" and S(x_["args"][0]) == "mod->recvs"]
+        fall = [(n_, d, g_) for (n_, d, x_, g_) in srcs if S(x_) == "mod->hook.on_evt"]
+        ok = len(srcs) == 2 and len(peek) == 1 and len(fall) == 1 and cb.ev_dominates(peek[0][1], uc) and S(uc.args[0]) == "mod"
+        if ok:
+            names_ = sorted(seen_names) + [S(peek[0][1].rhs)]
+            under = any(has(X.facts(cb, fall[0][1]), nm__, False) for nm__ in names_) or \
+                (fall[0][2] is not None and fall[0][2][1] is False and fall[0][2][0] in names_)
+            ok = under
         later = [e for e in cb.calls("m_stack_peek") if cb.ev_dominates(uc, e)]
         ok = ok and not later
-        det = "handler = %s, fallback %s under !%s, invoked with (%s, %s)" % ([S(d.rhs) for (_n, d) in peek], [S(d.rhs) for (_n, d) in fall],
+        det = "handler = %s, fallback %s under !%s, invoked with (%s, %s)" % ([S(d.rhs) for (_n, d) in peek], [S(d.rhs) for (_n, d, _g) in fall],
                                                                              fall[0][0] if fall else "?", S(uc.args[0]), S(uc.args[1]) if len(uc.args) > 1 else "")
     ck.ob("C17.2-SELECTION", cb.site("handler selection"), ok, det)
 
